@@ -144,6 +144,10 @@ def _group_card(rng, kind, n, allow_gt_n=False):
         return 0, 1
     if kind == "card_star":
         return rng.randint(0, n), -1
+    if allow_gt_n and rng.random() < 0.3:
+        # upper bound above the number of children (with min 1 it is *not* an or-group)
+        return rng.choice([(1, n + 2), (1, n + 1), (1, n + 7), (0, n + 1), (2, n + 3),
+                           (n, n + 1)])
     # arbitrary [a..b] that is none of the named kinds; boundary shapes half of the time
     if rng.random() < 0.5:
         shapes = [(0, 0), (0, n), (n, n), (2, n), (0, 2), (n - 1, n), (2, 2), (0, n - 1)]
@@ -167,7 +171,8 @@ def _uvl_scalar(rng, strings):
     if k < 0.2:
         return rng.choice([True, False])
     if k < 0.45:
-        return rng.choice([0, 1, 2, 7, 10, 42, 100, 65535, 123456789])
+        return rng.choice([0, 1, 2, 7, 10, 42, 100, 65535, 123456789, 9007199254740993,
+                           2 ** 63, 10 ** 23 + 7])
     if k < 0.65:
         if rng.random() < 0.3:
             # floats that need all 16-17 significant digits to survive ("plain-decimal float":
@@ -178,7 +183,8 @@ def _uvl_scalar(rng, strings):
             if "e" not in repr(v) and v == v:
                 return v
         return rng.choice([0.5, 1.5, 2.25, 3.0, 10.0, 0.125, 99.9, 1234.5678, 0.1234567,
-                           99.9999999, 3.141592653589793, 100000.5, 0.000125])
+                           99.9999999, 3.141592653589793, 100000.5, 0.000125,
+                           1.0, 0.0, 1.0, 2.0])      # (equal to True / False / 1 / 2 as dict keys)
     return rng.choice(strings)
 
 
@@ -213,7 +219,8 @@ def _attr_value(rng, kind, depth=0, nonascii=False):
                 return rng.choice([0, 1, -1, 7, -42, 100, 2 ** 40, 2 ** 53 + 1, 2 ** 63,
                                    -(2 ** 63) - 1, 10 ** 20])
             if j < 0.65:
-                return rng.choice([0.5, -1.5, 2.25, 3.0, 1e-07, 1e+22, 0.1, 0.30000000000000004,
+                return rng.choice([0.5, -1.5, 2.25, 3.0, 1e-07, 1e+22, 0.1, 1.0, 0.0, 1.0,
+                                   0.30000000000000004,
                                    0.7999999999999999, 1.7976931348623157e+308, 5e-324,
                                    123456.78901234567, rng.random()])
             return rng.choice(strings)
@@ -243,6 +250,8 @@ def _gen_attrs(rng, kind, cfg):
     out = []
     used = []
     simple = ["x", "cost", "size", "v1", "Weight", "k_2", "note"]
+    if kind in ("uvl", "json", "whole") and rng.random() < 0.15:
+        simple = simple + ["Cost", "SIZE", "weight", "X"]     # equal up to letter case
     fancy = ["a-b", "two words", "q?"] if kind in ("uvl", "json", "whole") else []
     if kind in ("json", "whole"):
         fancy = fancy + ["do.t", "say\"q", "it's", "ñ"]
@@ -261,6 +270,10 @@ def _gen_attrs(rng, kind, cfg):
             if rng.random() < 0.5:
                 lo = rng.randint(0, 20)
                 ranges = [[lo, lo + rng.randint(0, 50)]]
+                if rng.random() < 0.12:
+                    # end points that a double cannot hold, and large ones
+                    ranges = [[lo, rng.choice([2 ** 53 + 1, 2 ** 63 - 1, 10 ** 20 + 7, 65535,
+                                               2 ** 31])]]
                 if rng.random() < 0.25:
                     lo2 = ranges[0][1] + rng.randint(1, 10)
                     ranges.append([lo2, lo2 + rng.randint(0, 9)])
@@ -393,6 +406,31 @@ def gen_expr(rng, spec, namelist, depth, cfg, costly=None):
             gen_expr(rng, spec, namelist, depth - 1, cfg, costly)]
 
 
+def gen_chain(rng, namelist, op, with_not):
+    """A long chain of one associative operator (9-17 operands: more than a depth-3 tree can
+    hold, and not a power of two most of the time), nested to the left, to the right or
+    balanced; operands are distinct names as far as the model has them."""
+    n = rng.choice([9, 9, 10, 11, 12, 13, 15, 17])
+    names = list(namelist)
+    rng.shuffle(names)
+    lits = []
+    for i in range(n):
+        lit = ["f", names[i % len(names)]]
+        lits.append(["NOT", lit] if with_not and rng.random() < 0.15 else lit)
+    shape = rng.choice(["left", "right", "balanced"])
+
+    def build(items):
+        if len(items) == 1:
+            return items[0]
+        if shape == "left":
+            return [op, build(items[:-1]), items[-1]]
+        if shape == "right":
+            return [op, items[0], build(items[1:])]
+        mid = len(items) // 2
+        return [op, build(items[:mid]), build(items[mid:])]
+    return build(lits)
+
+
 def gen_nnf(rng, namelist, depth, with_not=True):
     """Formula already in negation normal form: AND / OR over literals."""
     if depth <= 0 or rng.random() < 0.2:
@@ -413,7 +451,7 @@ def gen_arith(rng, namelist, depth, cfg):
                     cfg.get("attr_refs") or ["x", "cost", "two words", "a-b"])]
             return ["f", rng.choice(namelist)]
         if j < 0.65:
-            return ["i", rng.choice([0, 1, 2, 3, 10, 100])]
+            return ["i", rng.choice([0, 1, 2, 3, 10, 100, 100, 9007199254740993])]
         if j < 0.8:
             return ["r", rng.choice([0.5, 1.5, 2.25, 10.0])]
         if j < 0.9 and cfg.get("str_literals", True):
@@ -444,7 +482,10 @@ def gen_model(rng, frag, pool, cfg):
         if spec.get("root_term") and rng.random() < 0.1:
             expr = ["f", rng.choice(namelist)]
         else:
-            if cfg.get("ctc_shape") == "nnf" and rng.random() < 0.7:
+            chain_ops = [o for o in ("AND", "OR") if o in spec["ops"]]
+            if chain_ops and len(namelist) >= 3 and rng.random() < cfg.get("p_chain", 0.05):
+                expr = gen_chain(rng, namelist, rng.choice(chain_ops), "NOT" in spec["ops"])
+            elif cfg.get("ctc_shape") == "nnf" and rng.random() < 0.7:
                 expr = gen_nnf(rng, namelist, min(rng.randint(1, cfg.get("ctc_depth", 2) + 1), 4),
                                "NOT" in spec["ops"])
             else:
@@ -497,6 +538,10 @@ def default_cfg(rng, frag, tier="quick"):
     if frag == "uvl":
         cfg["dotted_refs"] = rng.random() < 0.5
         cfg["card_gt_n"] = rng.random() < 0.3   # '[2..5]' over three children is legal UVL
+    if frag in ("json", "glencoe", "afm", "whole"):
+        # a group whose upper bound exceeds the number of its children is a legal relation and
+        # these formats write both bounds: '[1..5]' over three children is not an or-group
+        cfg["card_gt_n"] = rng.random() < 0.25
     if frag == "whole":
         cfg["dup_ctc_names"] = rng.random() < 0.25
         # the library's CNF conversion (SPLOT export, pseudo-/strict-complex metrics) is
